@@ -84,11 +84,11 @@ static void drv_setup(int argc, char **argv)
     int i; const char *keys;
     if (argc < 3) { fprintf(stderr, "drv_tree: scope = <rb> <keys> <swap>\n"); exit(64); }
     RB = atoi(argv[0]); keys = argv[1]; SWAP = atoi(argv[2]);
-    N = (int)strlen(keys);
+    N = keys[0] == '=' ? atoi(keys + 1) : (int)strlen(keys);      /* "=n": the keys 1..n */
     if (argc > 3) PROBES = atoi(argv[3]);
     if (N > MAXN) exit(64);
     for (i = 1; i <= N; i++) {
-        pool[i].key = keys[i - 1] - '0'; pool[i].id = i;
+        pool[i].key = keys[0] == '=' ? i : keys[i - 1] - '0'; pool[i].id = i;
         if (pool[i].key > MAXK) MAXK = pool[i].key;
     }
 }
